@@ -31,12 +31,12 @@ type Unit struct {
 func (x *Exec) newTopFrame(fn *ssa.Function, st *State) *Frame {
 	fr := &Frame{fn: fn, vals: map[ssa.Value]string{}, laddr: map[ssa.Value]*LAddr{}, tuples: map[ssa.Value][]string{}, lets: map[string]specVal{}}
 	for _, p := range fn.Params {
-		t := x.freshOfType(st, "p_"+p.Name(), p.Type())
+		t := x.paramOfType(st, "p_"+p.Name(), p.Type())
 		fr.vals[p] = t
 		fr.params = append(fr.params, t)
 	}
 	for _, fv := range fn.FreeVars {
-		fr.vals[fv] = x.freshOfType(st, "fv_"+fv.Name(), fv.Type())
+		fr.vals[fv] = x.paramOfType(st, "fv_"+fv.Name(), fv.Type())
 	}
 	return fr
 }
@@ -77,6 +77,7 @@ func verifyFunc(p *Prog, db *ContractDB, fc *FuncContract, prop string) (u *Unit
 		return x.finishUnit(u, t0)
 	}
 	x.top = fn
+	x.topName = fn.String()
 	x.topC = fc
 	x.overflowOn = fc.Overflow
 	x.safetyOn = fc.Safety
@@ -166,6 +167,7 @@ func sweepFunc(p *Prog, db *ContractDB, fn *ssa.Function, prop string, sweepSet 
 	x.prop = prop
 	x.mode = "sweep"
 	x.top = fn
+	x.topName = fn.String()
 	x.sweepOnly = true
 	x.sweepSet = sweepSet
 	x.maxDepth = 2
@@ -208,6 +210,7 @@ func verifyLemma(p *Prog, db *ContractDB, lm *Lemma, prop string) (u *Unit) {
 		x.maxDepth = lm.Depth
 	}
 	x.top = &ssa.Function{}
+	x.topName = "lemma:" + lm.Name
 	defer func() {
 		if r := recover(); r != nil {
 			u.Err = fmt.Sprintf("engine panic: %v", r)
@@ -226,7 +229,7 @@ func verifyLemma(p *Prog, db *ContractDB, lm *Lemma, prop string) (u *Unit) {
 			x.unsupp("lemma %s: cannot resolve type %s", lm.Name, exprString(v.Type))
 			continue
 		}
-		env.names[v.Name] = specVal{term: x.freshOfType(st, "v_"+v.Name, ty), typ: ty}
+		env.names[v.Name] = specVal{term: x.paramOfType(st, "v_"+v.Name, ty), typ: ty}
 	}
 	n := 0
 	for _, s := range lm.Steps {
